@@ -55,13 +55,18 @@ RULE = ("cases 0..K-1 enumerate completely: every native name the binder "
         "reachable value")
 REAL = ["ckl.functions (binder, all natives)", "ckl.nodes (NodeAssign guard, "
         "NodeRequire)", "ckl.interpreter.Interpreter (secure and non-secure "
-        "instances in one process)", "all bundled .ckl modules"]
+        "instances in one process)", "all bundled .ckl modules",
+        "ckl.repl.main (repl -s sessions)", "ckl.run.main (run -s sessions)"]
 STUBBED = ["the operating system (virtual FS with a canary tree, process "
-           "table, environment) as observer", "stdin/stdout", "clock"]
+           "table, environment) as observer", "stdin/stdout", "clock",
+           "run host: the Interpreter constructor seen by ckl.run returns "
+           "the same interpreter on every call; its constructor arguments "
+           "are recorded and must say secure"]
 ASSUMPTIONS = [
     "allowed effects of a secure instance: resource reads of bundled "
     "modules, and exists/open-for-read of *.ckl files in ~/.ckl/modules "
-    "and the configured module path",
+    "and the configured module path; for a run-hosted session also the "
+    "host's own exists/open/read of exactly its script file",
     "a rejection of any kind (runtime error, syntax error, even a host "
     "exception at parse time) counts as 'denied'; only an observed effect, "
     "a changed canary or a flipped flag is a violation",
@@ -73,7 +78,7 @@ REQUIRED_PROBES = {
               "secure_allowed_module_read", "flag_probe_read",
               "nonsecure_created_first", "env_shared_with_nonsecure",
               "detached_scope_calls", "secure_interpreter_created_late",
-              "precreated_child_scope", "repl_hosted_secure_session",
+              "precreated_child_scope", "repl_hosted_secure_session", "run_hosted_secure_session",
               "home_without_ckl_dir"],
 }
 REQUIRED_PROBES["thorough"] = REQUIRED_PROBES["quick"]
@@ -486,6 +491,9 @@ def _gen_session(rng, tier):
     if rng.random() < 0.2:
         # the secure instance is an interactive `repl -s` session
         cfg["host"] = "repl"
+        if rng.random() < 0.35:
+            # ... or every command is a script given to `run -s`
+            cfg["host"] = "run"
         cfg["share_env"] = False
     files = base_files(12)
     files[f"{MOD_HOME}/umod.ckl"] = {"text": (
@@ -684,8 +692,11 @@ def _gen_session(rng, tier):
 
 # ------------------------------------------------------------------------
 
-def allowed_for_secure(ev, moddirs):
-    """is this world event a permitted effect of a secure instance?"""
+def allowed_for_secure(ev, moddirs, host_script=None):
+    """is this world event a permitted effect of a secure instance?
+    host_script: the script file the run host itself reads (its own
+    existence test, open and read of exactly that path are the host's,
+    not the program's)"""
     from ..world import SUT_SRC
     moddirs = list(moddirs) + [SUT_SRC + "/ckl/modules"]
     import posixpath
@@ -703,12 +714,12 @@ def allowed_for_secure(ev, moddirs):
         return path.endswith(".ckl") and any(
             path.startswith(d + "/") for d in moddirs)
     if kind == "stat":
-        return inside(ev[4])
+        return inside(ev[4]) or (ev[3] == "exists" and ev[4] == host_script)
     if kind == "open":
         path, mode = ev[3], ev[4]
-        return mode in ("r", "rt") and inside(path)
+        return mode in ("r", "rt") and (inside(path) or path == host_script)
     if kind == "fsread":
-        return inside(ev[3])
+        return inside(ev[3]) or ev[3] == host_script
     return False
 
 
@@ -763,10 +774,14 @@ def run_case(case, root):
             probes["nonsecure_created_first"] = 1
         host = None
         stuck = []
-        if cfg.get("host") == "repl":
-            from ..replhost import ReplHost
-            host = ReplHost(sim, "S", True, cfg["legacy"],
-                            "/sim/mods" if cfg.get("home_missing") else None)
+        host_script = None
+        if cfg.get("host") in ("repl", "run"):
+            from ..replhost import ReplHost, RunHost
+            HostCls = RunHost if cfg["host"] == "run" else ReplHost
+            if cfg["host"] == "run":
+                host_script = RunHost.SCRIPT
+            host = HostCls(sim, "S", True, cfg["legacy"],
+                           "/sim/mods" if cfg.get("home_missing") else None)
             w.actor = "S"
             w.sut_running = True
             try:
@@ -777,7 +792,7 @@ def run_case(case, root):
             if not started:
                 raise HarnessError(f"REPL did not start: {host.exc!r}")
             S = sim.inst["S"]
-            probes["repl_hosted_secure_session"] = 1
+            probes[cfg["host"] + "_hosted_secure_session"] = 1
         else:
             S = sim.new_interpreter("S", True, cfg["legacy"])
         if cfg.get("nonsecure") and N is None:
@@ -908,10 +923,10 @@ def run_case(case, root):
                 if not e[1].startswith("S"):
                     continue
                 if e[2] in ("open", "stat", "fsread") and \
-                        allowed_for_secure(e, moddirs):
+                        allowed_for_secure(e, moddirs, host_script):
                     probes["secure_allowed_module_read"] = probes.get(
                         "secure_allowed_module_read", 0) + 1
-                if not allowed_for_secure(e, moddirs):
+                if not allowed_for_secure(e, moddirs, host_script):
                     V("no-os-effect", "effect:" + op_signature(op, e),
                       f"op#{idx} on the secure instance `{op.get('src')}` "
                       f"caused the OS event {e[2:]} (outcome {out['kind']} "
@@ -943,6 +958,14 @@ def run_case(case, root):
                     observed.pop(0)
         if host is not None:
             S = sim.inst["S"]
+            # every interpreter a host started with -s constructs must be
+            # a secure one, whatever the scripts contained
+            for a, k in host.ctor:
+                sec = a[0] if a else k.get("secure", True)
+                if not sec and not viol:
+                    V("host-secure-flag", "host-ctor-not-secure",
+                      f"the {cfg['host']} host was started with -s but "
+                      f"constructed Interpreter{a!r}{k!r}")
         # `run` must not exist in a secure interpreter
         if not viol:
             out = sim.run(len(case["ops"]), "S", [], lambda: S.interpret(
@@ -955,7 +978,7 @@ def run_case(case, root):
                 sim.run(len(case["ops"]) + 1, "S", [], lambda: S.interpret(
                     "run(" + PSCRIPT + ")", "c"))
                 for e in w.trace[n_ev:]:
-                    if e[1] == "S" and not allowed_for_secure(e, moddirs):
+                    if e[1] == "S" and not allowed_for_secure(e, moddirs, host_script):
                         V("no-os-effect", "effect:run-defined",
                           f"`run` is callable in the secure interpreter and "
                           f"touched the OS: {e[2:]}")
